@@ -138,6 +138,14 @@ CORPUS = [
     (B, "C06,C19", "region/_region.py", "            region.h = np.ascontiguousarray(np.expand_dims(region.element.h, -1))", "            region.h = np.ascontiguousarray(np.expand_dims(getattr(region.element, \"h0\", region.element.h), -1))\n            region.element.h0 = region.element.h"),
     (B, "C16", "mesh/_tools.py", "        points_phi = phi\n        n = len(points_phi)\n", "        points_phi = phi\n"),
     (B, "C19", "tools/_project.py", "    idx[: len(dim)] = idx[: len(dim)][::-1]", "    idx[: len(dim)] = np.roll(idx[: len(dim)], 1)"),
+    # ---- round 9: the two further repairs reverted, and its classes
+    (B, "C06", "region/_region.py", "                        region.d2hdrdr\n                        - np.einsum(\"aMqc,MIJqc->aIJqc\", region.dhdX, d2Xdrdr),\n", "                        region.d2hdrdr,\n"),
+    (B, "C09", "mechanics/_curve.py", ".values[self.boundary.points[0]].copy())", ".values[self.boundary.points[0]])"),
+    (B, "C15", "dof/_boundary.py", "        self.value = value  #\n", "        if isinstance(self.value, np.ndarray):\n            self.value[...] = value\n        else:\n            self.value = value\n"),
+    (B, "C10", "field/_dual.py", "            RegionQuadraticQuad: RegionConstantQuad,", "            RegionQuadraticQuad: RegionQuad,"),
+    (B, "C17,C20", "math/_tensor.py", "        B[dim[0] :] *= 2", "        B[3:] *= 2"),
+    (B, "C09,C08", "dof/_loadcase.py", "                lefts[i] = f.region.mesh.points[:, axis].min()", "                lefts[i] = f.region.mesh.points[:, axes].min()"),
+    (B, "C03", "constitution/hyperelasticity/_neo_hooke_nearly_incompressible.py", "        mu = self.mu\n        bulk = self.bulk\n\n        J = det(F)\n        iFT = transpose(inv(F, J))\n\n        A4 = out", "        mu = self.kwargs.get(\"mu\")\n        bulk = self.kwargs.get(\"bulk\")\n\n        J = det(F)\n        iFT = transpose(inv(F, J))\n\n        A4 = out"),
     # ---- behaviour-preserving edits: the listed checks must stay silent
     (K, "C04", "element/_quad.py", "            * 0.25\n        )\n\n    def gradient", "            / 4\n        )\n\n    def gradient"),
     (K, "C17,C03", "math/_tensor.py", "    out = np.add(A, transpose(A), out=out)\n    return np.multiply(out, 0.5, out=out)", "    out = np.add(A, transpose(A), out=out)\n    return np.divide(out, 2, out=out)"),
@@ -161,6 +169,8 @@ CORPUS = [
     (K, "C03", "constitution/hyperelasticity/_neo_hooke_nearly_incompressible.py", "            A4.fill(0)\n", "            A4[...] = 0\n"),
     (K, "C18", "mechanics/_free_vibration.py", 'sigma = kwargs.pop("sigma", 0)\n        self.eigenvalues, self.eigenvectors = solver(A=K, M=M, sigma=sigma, **kwargs)', 'kwargs.setdefault("sigma", 0)\n        self.eigenvalues, self.eigenvectors = solver(A=K, M=M, **kwargs)'),
     (K, "C07", "solve/_solve.py", "    dr0 = K10.dot(ext0 - u0)\n", "    du0 = ext0 - u0\n    dr0 = K10.dot(du0)\n"),
+    (K, "C06", "region/_region.py", "                        region.d2hdrdr\n                        - np.einsum(\"aMqc,MIJqc->aIJqc\", region.dhdX, d2Xdrdr),\n", "                        -(np.einsum(\"aMqc,MIJqc->aIJqc\", region.dhdX, d2Xdrdr) - region.d2hdrdr),\n"),
+    (K, "C09", "mechanics/_curve.py", ".values[self.boundary.points[0]].copy())", ".values[self.boundary.points[0]] + 0)"),
     (K, "C19,C18", "mechanics/_solidbody.py", "        return dot(P, transpose(F))\n\n    def _cauchy_stress", "        FT = transpose(F)\n        return dot(P, FT)\n\n    def _cauchy_stress"),
 ]
 
